@@ -405,6 +405,7 @@ class CtlWriter:
 
             if SUBBLOCKS in self.elements:
                 sub_blocks = self.get_sub_blocks(instructions)
+                m_span = 0
                 for j, (ctl, sb_instructions) in enumerate(sub_blocks):
                     has_bases = False
                     for instruction in sb_instructions:
@@ -414,6 +415,7 @@ class CtlWriter:
                     first_instruction = sb_instructions[0]
                     if ctl != 'M' or COMMENTS in self.elements:
                         if ctl == 'M':
+                            m_span = first_instruction.comment.rowspan
                             offset = first_instruction.comment.rowspan
                             index = j + 1
                             while offset > 0 and index < len(sub_blocks):
@@ -438,7 +440,13 @@ class CtlWriter:
                                 if comment.rowspan > 1 and not comment.text.replace('.', ''):
                                     comment_text = '.' + comment_text
                                 write_comment = comment_text != ''
-                        if write_comment or ctl.lower() != entry_ctl or ctl != 'C' or has_bases:
+                        # The last sub-block inside the span of an 'M' directive
+                        # is always written, because it marks the end of the span
+                        ends_m_span = False
+                        if ctl != 'M' and m_span > 0:
+                            m_span -= len(sb_instructions)
+                            ends_m_span = m_span <= 0
+                        if write_comment or ctl.lower() != entry_ctl or ctl != 'C' or has_bases or ends_m_span:
                             self.write_sub_block(ctl, entry_ctl, comment_text, sb_instructions, length)
 
     def addr_str(self, address):
